@@ -3,6 +3,7 @@
 # tests pass with the change, demo fails with it and passes without it. Writes RESULT into OUT/<mN>/confirm.txt
 ID=$1; M=$2; W=/var/tmp/seed/$ID; O=$W/OUT/$M
 cd $W || exit 2
+export CARGO_HOME=/root/.cargo RUSTUP_HOME=/root/.rustup HOME=$W/scratch_home XDG_CACHE_HOME=$W/scratch_home/.cache; mkdir -p $XDG_CACHE_HOME
 git checkout -q -- . ; git status --porcelain --untracked-files=no
 R=$O/confirm.txt; : > $R
 git apply $O/patch.diff || { echo "apply failed" >> $R; exit 1; }
@@ -11,5 +12,5 @@ echo "tests with change: $T" >> $R
 bash $O/demo.sh $W > $O/demo.with.log 2>&1; echo "demo with change: exit $?" >> $R
 git checkout -q -- .
 bash $O/demo.sh $W > $O/demo.without.log 2>&1; echo "demo without change: exit $?" >> $R
-rm -rf $W/scratch
+rm -rf $W/scratch $W/scratch_home
 cat $R
